@@ -9,10 +9,22 @@ VERIF_SEED); harness/c20p replays them on the real notify.GetTemplateData, the r
 notifier behind the real notify.RetryStage (posting to a loopback test server) and the real
 notify.TruncateInRunes / TruncateInBytes.
 
-The retry / record-after-success / sibling clauses of C20 are checks/c20.py; the coordinator
+Retry contract of ONE real notifier (spec/DeliveryRetry.tla): per-attempt endpoint outcome
+(2xx, slow 2xx, 4xx, 429, 5xx, connection refused / reset, answer later than the notifier's own
+`timeout:`, no answer before the flush is over) x timeout configured or not x position of the
+flush deadline x cancellation by a reload.  MC: spec/mc/MC_DeliveryRetry (the RetryStage loop with
+the notifier's classification satisfies the clauses of C20 on every run; MC_DeliveryRetry_seed.cfg,
+a notifier that reports its own timeout as unrecoverable, must be rejected).  Gen:
+spec/mc/Gen_DeliveryRetry prints every delivery with the expectation; harness/c20p
+(TestRetryReplay) replays them in REAL time on the real webhook / pagerduty notifier behind the
+real notify.RetryStage + notify.SetNotifiesStage + nflog.Log against a scripted loopback endpoint
+and judges the clauses over the observed run (tolerance 500 ms, candidates re-run twice).
+
+The sibling clauses of C20 and the end-to-end retry clauses are checks/c20.py; the coordinator
 calls run_payload() from there.  `bin/check C20P` runs this half alone (out/C20P), reporting
 for property C20."""
-import json, os, hashlib
+import json, os, hashlib, random
+from concurrent.futures import ThreadPoolExecutor
 from lib import vlib
 from lib.vlib import log
 
@@ -28,7 +40,18 @@ ASSUMPTIONS = [
     "payload: label values are never empty (the API strips empty labels before storing an alert); annotation values may be empty",
     "payload: input strings of the truncation functions are valid UTF-8; limits are >= 0",
     "payload: alert end times are decades before / after the wall clock (status is read through time.Now() by the code)",
-    "payload: the webhook endpoint answers 200 at once (retry policy is the other half of C20)",
+    "payload: the webhook endpoint answers 200 at once",
+    "retry: one integration, one flush; real time on loopback with short timers (notifier timeout 300 ms, flush deadline 0.45-2.9 s, "
+    "cancellation at 0.13 / 0.95 s): every bound is judged with a tolerance of 500 ms and a candidate violation is reported only "
+    "when two re-runs show it again",
+    "retry: the back-off ticker is the library's (500 ms x 1.5^k, randomised 0.5-1.5); only the first 3-5 gaps fit into the short "
+    "flushes, the 60 s cap is not reached",
+    "retry: what happened in an attempt is derived from the observations (dial error, status written by the endpoint, duration "
+    "against the configured timeout, state of the flush context), not from the script; the notifier is built with a recording "
+    "dialer and keep-alives off (HTTP client options of its constructor), otherwise as configured",
+    "retry: the statement does not say whether 429 is recoverable: the notifier's own rule (Retrier.RetryCodes) is the model, "
+    "a deviation is DRIFT; a 2xx reported as failure, a return before the deadline without a due retry, gaps below the back-off's "
+    "lower bound and error texts are DRIFT as well",
 ]
 
 
@@ -112,6 +135,153 @@ def _judge(v, wd, results, tag="payload", single=False):
     return counters, nviol
 
 
+
+# --------------------------------------------------------------------------- retry half of one real notifier
+def _retry_tlc(pid, thorough):
+    """The TLC jobs of the retry contract (run from a thread pool)."""
+    mc = vlib.tlc(pid, "retry_mc", "MC_DeliveryRetry", "MC_DeliveryRetry_thorough.cfg" if thorough else "MC_DeliveryRetry.cfg",
+                  workers=8 if thorough else 4, timeout=900 if thorough else 240)
+    return mc
+
+
+def _retry_seed_tlc(pid):
+    return vlib.tlc(pid, "retry_mc_seed", "MC_DeliveryRetry", "MC_DeliveryRetry_seed.cfg", workers=2, timeout=240)
+
+
+def _retry_gen(pid, wd, thorough):
+    out = os.path.join(wd, "retry_gen_all.jsonl")
+    g = vlib.gen_behaviours(pid, "retry_gen", "Gen_DeliveryRetry",
+                            "Gen_DeliveryRetry_thorough.cfg" if thorough else "Gen_DeliveryRetry.cfg", out,
+                            workers=2, timeout=900 if thorough else 240)
+    return g, out
+
+
+def _retry_select(all_path, out_path, thorough, seed):
+    """Deliveries whose whole script can be reached; quick: every script of <= 3 outcomes and a seeded sample of the longer ones."""
+    cases = [json.loads(l) for l in open(all_path) if l.strip()]
+    use = [c for c in cases if c["exp"]["max"] >= len(c["script"])]
+    short = [c for c in use if len(c["script"]) <= 3]
+    longer = [c for c in use if len(c["script"]) > 3]
+    if not thorough:
+        rnd = random.Random(seed)
+        longer = rnd.sample(longer, min(250, len(longer)))
+    sel = short + longer
+    with open(out_path, "w") as f:
+        for c in sel:
+            f.write(json.dumps(c) + "\n")
+    return len(cases), len(use), len(short), len(longer)
+
+
+def _retry_replay(binp, inp, out, seed):
+    rc, txt = vlib.go_run_test(binp, "TestRetryReplay$", ["-in", inp, "-out", out, "-seed", str(seed)], timeout=600)
+    if rc != 0:
+        raise vlib.Inconclusive("retry replay harness failed:\n" + txt[-3000:])
+    return vlib.load_result(out)
+
+
+def _obs_text(got):
+    """Short text of an observed run."""
+    try:
+        atts = ["#%d %s +%d..+%dms %s retry=%s err=%s" % (a["k"], a["scripted"], a["start_ms"], a["end_ms"], a["why"], a["retry"],
+                                                         (a["err"] or "nil")[:90]) for a in got["attempts"]]
+        return "observed: %s; flush over +%dms; stages returned +%dms err=%s; nflog writes %s" % (
+            " | ".join(atts), got["flush_over_ms"], got["stage_returned_ms"], (got["stage_err"] or "nil")[:160], got.get("nflog_writes_ms") or [])
+    except Exception:
+        return json.dumps(got)[:800]
+
+
+def _judge_retry(v, wd, r, n_in, tag="retry", single=False):
+    counters = r["counters"]
+    nviol = 0
+    shown = {}
+    for m in r["mismatches"]:
+        cls = m.get("class") or ""
+        shown[cls] = shown.get(cls, 0) + 1
+        desc = "%s; %s" % (m["what"], _obs_text(m.get("got")))
+        if cls == "":
+            nviol += 1
+            if nviol <= 5:
+                rp = os.path.join(wd, "%s_replay_violation_%d.json" % (tag, nviol))
+                json.dump(m.get("replay"), open(rp, "w"))
+                v.violation(desc, [rp])
+        elif cls == "drift":
+            if shown[cls] <= 4:
+                v.notes.append("DRIFT property=%s %s" % (PROP, desc[:900]))
+        else:
+            raise vlib.Inconclusive("retry harness reported an unknown mismatch class %r" % cls)
+    if counters.get("mismatch_violation", 0) > 0 and nviol == 0:
+        raise vlib.Inconclusive("retry harness counted violations but listed none")
+    if nviol == 0 and not single:
+        # not a verdict: too much of the run could not be judged
+        judged = counters.get("retry_judged", 0)
+        if counters.get("retry_harness_errors", 0) > 0.01 * n_in or judged < 0.95 * n_in:
+            raise vlib.Inconclusive("retry replay: only %d of %d deliveries could be judged (%d harness errors, %d unexplained attempts): %s"
+                                    % (judged, n_in, counters.get("retry_harness_errors", 0), counters.get("retry_unexplained", 0),
+                                       [n for n in (r.get("notes") or []) if n.startswith("retry_")][:4]))
+        if counters.get("retry_offnominal_cases", 0) > 0.25 * n_in:
+            raise vlib.Inconclusive("retry replay: the machine is too loaded, %d of %d deliveries did not run as scripted"
+                                    % (counters["retry_offnominal_cases"], n_in))
+        if counters.get("retry_flaky", 0) > max(5, 0.02 * n_in) or counters.get("retry_candidates_not_rerun", 0) > 0:
+            raise vlib.Inconclusive("retry replay: %d candidate violations did not show again when re-run (%d not re-run): timing too noisy for a verdict"
+                                    % (counters.get("retry_flaky", 0), counters.get("retry_candidates_not_rerun", 0)))
+    if counters.get("retry_flaky", 0) > 0:
+        v.notes.append("NOTE property=%s retry: %d candidate violation(s) of the first pass did not show again in two re-runs (load): %s"
+                       % (PROP, counters["retry_flaky"], {k: n for k, n in counters.items() if k.startswith("retry_flaky_")}))
+    return counters, nviol
+
+
+def _retry_finish(pid, wd, thorough, v, binp, mc, mcs, gen):
+    seed = vlib.seed()
+    vlib.tlc_must_pass(mc, "MC_DeliveryRetry")
+    if mc.distinct < 50000:
+        raise vlib.Inconclusive("MC_DeliveryRetry explored only %d states" % mc.distinct)
+    if mcs.timed_out or mcs.error or mcs.violated != "InvClauses":
+        raise vlib.Inconclusive("MC_DeliveryRetry_seed.cfg: the clauses did not reject a notifier that reports its own timeout as "
+                                "unrecoverable (violated=%s error=%s, see %s)" % (mcs.violated, mcs.error, mcs.stdout_path))
+    g, gen_all = gen
+    inp = os.path.join(wd, "retry_gen.jsonl")
+    n_all, n_use, n_short, n_long = _retry_select(gen_all, inp, thorough, seed)
+    log("  MC_DeliveryRetry: %d states, clauses hold on every run of the RetryStage loop (%.1fs); seeded variant rejected (%s); "
+        "Gen_DeliveryRetry: %d deliveries, %d with a fully reachable script, replaying %d + %d (%.1fs)"
+        % (mc.distinct, mc.wall, mcs.violated, n_all, n_use, n_short, n_long, g.wall))
+    n_in = n_short + n_long
+    if n_in < 1200:
+        raise vlib.Inconclusive("Gen_DeliveryRetry produced too few deliveries (%d)" % n_in)
+    r = _retry_replay(binp, inp, os.path.join(wd, "retry_replay.json"), seed)
+    counters, nviol = _judge_retry(v, wd, r, n_in)
+    if nviol == 0:
+        need = {"retry_cases_webhook": 900, "retry_cases_pagerduty": 300, "retry_cases_timeout_configured": 600,
+                "retry_cases_cancelled": 250, "retry_cases_with_retries": 800, "retry_obligations": 800, "retry_logged": 150,
+                "retry_why_2xx": 150, "retry_why_4xx": 60, "retry_why_429": 100, "retry_why_5xx": 400, "retry_why_conn": 800,
+                "retry_why_timeout": 250, "retry_why_cut": 60, "retry_ended_unrecoverable": 100}
+        for k, n in need.items():
+            if counters.get(k, 0) < n:
+                raise vlib.Inconclusive("retry replay reached too few cases of kind %s: %d < %d" % (k, counters.get(k, 0), n))
+    wave = [n for n in (r.get("notes") or []) if n.startswith("retry_wave")]
+    log("  retry replay: %d deliveries on the real notifiers (%d webhook, %d pagerduty; %d with timeout configured, %d cancelled), "
+        "%d attempts, %d retry obligations judged, %d recorded in the nflog, %d off-nominal, %d outside the model's counts, %d violations (%s)"
+        % (counters.get("retry_cases", 0), counters.get("retry_cases_webhook", 0), counters.get("retry_cases_pagerduty", 0),
+           counters.get("retry_cases_timeout_configured", 0), counters.get("retry_cases_cancelled", 0), counters.get("retry_attempts", 0),
+           counters.get("retry_obligations", 0), counters.get("retry_logged", 0), counters.get("retry_offnominal_cases", 0),
+           counters.get("retry_outside_model", 0), nviol, "; ".join(wave)))
+    return {
+        "states": mc.distinct, "transitions": mc.generated,
+        "cases": r["cases"], "attempts": counters.get("retry_attempts", 0), "nontrivial": r["nontrivial"],
+        "counters": counters, "samples": r["samples"][:2],
+        "bounds": ("retry MC (%s): %d states: notifier type {webhook, pagerduty} x canonical outcome scripts over {ok, slow, c4xx, c429, c5xx, "
+                   "refused, reset, hangT, hangD} of length <= %s (webhook) / <= %s (pagerduty), the last outcome repeating x own timeout "
+                   "configured or not (300 ms) x end of the flush {deadline 450, 1600, 2900 ms; deadline 2900 ms cancelled at 130, 950 ms} x "
+                   "the extreme gaps of the back-off ticker. Gen (%s): %d deliveries, %d with every scripted outcome reachable; replayed: "
+                   "all %d with <= 3 outcomes, %d %s with 4 (seed %d)" %
+                   ("MC_DeliveryRetry_thorough.cfg" if thorough else "MC_DeliveryRetry.cfg", mc.distinct,
+                    "5" if thorough else "4", "4" if thorough else "3",
+                    "Gen_DeliveryRetry_thorough.cfg" if thorough else "Gen_DeliveryRetry.cfg", n_all, n_use, n_short, n_long,
+                    "(all)" if thorough else "sampled", seed)),
+        "rule": "retry: one case = one delivery (notifier type, outcome script, timeout configured, deadline, cancellation) replayed in "
+                "real time; non-trivial = at least two attempts observed",
+    }
+
+
 def run_payload(pid, tier, v):
     """Runs the payload half; records violations / known findings on v; returns coverage additions."""
     wd = os.path.join(vlib.OUT, pid)
@@ -119,32 +289,46 @@ def run_payload(pid, tier, v):
     thorough = tier == "thorough"
     seed = vlib.seed()
 
+    # TLC jobs of both halves and the harness build run side by side (they are independent)
+    pool = ThreadPoolExecutor(max_workers=7)
+    f_mc = pool.submit(vlib.tlc, pid, "payload_mc", "MC_Delivery", "MC_Delivery_thorough.cfg" if thorough else "MC_Delivery.cfg",
+                       workers=8, timeout=1200 if thorough else 240)
+    f_bin = pool.submit(vlib.go_build_test, pid, "c20p")
+    gen1 = os.path.join(wd, "payload_gen_exh.jsonl")
+    f_g1 = pool.submit(vlib.gen_behaviours, pid, "payload_gen", "Gen_Delivery",
+                       "Gen_Delivery_thorough.cfg" if thorough else "Gen_Delivery.cfg", gen1,
+                       workers=8 if thorough else 4, timeout=1500 if thorough else 300)
+    gen2 = os.path.join(wd, "payload_gen_sim.jsonl")
+    ntr = 400 if thorough else 40
+    f_g2 = pool.submit(vlib.tlc, pid, "payload_sim", "Gen_Delivery", "Sim_Delivery.cfg", workers=1, timeout=1500 if thorough else 300,
+                       simulate="num=%d" % ntr, depth=25, extra=["-seed", str(seed)], marker="@@H ", payload_to=gen2 + ".raw")
+    f_rmc = pool.submit(_retry_tlc, pid, thorough)
+    f_rmcs = pool.submit(_retry_seed_tlc, pid)
+    f_rgen = pool.submit(_retry_gen, pid, wd, thorough)
+    pool.shutdown(wait=True)
+
     # 1. the definitions: laws of the statement over every case of the small universes
-    mc = vlib.tlc(pid, "payload_mc", "MC_Delivery", "MC_Delivery_thorough.cfg" if thorough else "MC_Delivery.cfg",
-                  workers=8, timeout=1200 if thorough else 240)
+    mc = f_mc.result()
     vlib.tlc_must_pass(mc, "MC_Delivery")
     if mc.distinct < 10000:
         raise vlib.Inconclusive("MC_Delivery explored only %d cases" % mc.distinct)
     log("  MC_Delivery: %d cases (states), laws hold on reference and, outside the known gaps, on the implementation layer, %.1fs"
         % (mc.distinct, mc.wall))
 
-    binp = vlib.go_build_test(pid, "c20p")
+    binp = f_bin.result()
 
     # 2. cases with expected payloads: exhaustive small universes + seeded random larger ones
-    gen1 = os.path.join(wd, "payload_gen_exh.jsonl")
-    g1 = vlib.gen_behaviours(pid, "payload_gen", "Gen_Delivery",
-                             "Gen_Delivery_thorough.cfg" if thorough else "Gen_Delivery.cfg", gen1,
-                             workers=8, timeout=1500 if thorough else 300)
-    gen2 = os.path.join(wd, "payload_gen_sim.jsonl")
-    ntr = 400 if thorough else 40
-    g2 = vlib.tlc(pid, "payload_sim", "Gen_Delivery", "Sim_Delivery.cfg", workers=1, timeout=1500 if thorough else 300,
-                  simulate="num=%d" % ntr, depth=25, extra=["-seed", str(seed)], marker="@@H ", payload_to=gen2 + ".raw")
+    g1 = f_g1.result()
+    g2 = f_g2.result()
     if g2.timed_out or g2.violated or g2.error or g2.rc != 0:
         raise vlib.Inconclusive("Sim_Delivery: TLC failed: %s %s (see %s)" % (g2.violated, g2.error, g2.stdout_path))
     nsim = _dedupe(gen2 + ".raw", gen2)
     log("  Gen_Delivery: %d exhaustive cases (%.1fs), %d random cases (seed %d, %.1fs)" % (g1.behaviours, g1.wall, nsim, seed, g2.wall))
     if g1.behaviours < 5000 or nsim < 1000:
         raise vlib.Inconclusive("Gen_Delivery produced too few cases")
+
+    # 2b. the retry contract of one real notifier, in real time (before the CPU-heavy payload replay)
+    retry = _retry_finish(pid, wd, thorough, v, binp, f_rmc.result(), f_rmcs.result(), f_rgen.result())
 
     # 3. replay on the real code
     results = []
@@ -177,10 +361,12 @@ def run_payload(pid, tier, v):
         "%d violations" % (cases, counters["batches"], counters["template_data"], counters["webhook_posts"],
                            counters["strings"], counters["string_evaluations"], nviol))
     return {
-        "states": mc.distinct, "transitions": mc.generated,
-        "traces_validated_against_impl": cases,
-        "evaluations": counters["template_data"] + counters["webhook_posts"] + counters["webhook_not_sent"] + counters["string_evaluations"],
-        "distinct_nontrivial": nontrivial,
+        "states": mc.distinct + retry["states"], "transitions": mc.generated + retry["transitions"],
+        "traces_validated_against_impl": cases + retry["cases"],
+        "evaluations": (counters["template_data"] + counters["webhook_posts"] + counters["webhook_not_sent"] + counters["string_evaluations"]
+                        + retry["attempts"]),
+        "distinct_nontrivial": nontrivial + retry["nontrivial"],
+        "retry_counters": retry["counters"], "retry_bounds": retry["bounds"], "retry_rule": retry["rule"], "retry_samples": retry["samples"],
         "rule": "payload: one case = one batch (alerts, group labels, send_resolved, max_alerts) or one string with its limits, "
                 "distinct as printed by TLC; non-trivial batch = at least two listed alerts that differ and either a non-empty "
                 "common set or mixed statuses; non-trivial string = at least one limit that truncates",
@@ -193,7 +379,8 @@ def run_payload(pid, tier, v):
                    ("MC_Delivery_thorough.cfg" if thorough else "MC_Delivery.cfg", mc.distinct, "7" if thorough else "6",
                     "Gen_Delivery_thorough.cfg" if thorough else "Gen_Delivery.cfg", g1.behaviours,
                     "3" if thorough else "2", "27" if thorough else "48",
-                    "3" if thorough else "2", "8" if thorough else "6", "7" if thorough else "5", "64" if thorough else "44", seed, nsim)),
+                    "3" if thorough else "2", "8" if thorough else "6", "7" if thorough else "5", "64" if thorough else "44", seed, nsim)
+                   + " | " + retry["bounds"]),
         "samples": samples,
         "payload_counters": counters,
         "payload_assumptions": ASSUMPTIONS,
@@ -214,6 +401,14 @@ def replay(path, v):
     os.makedirs(wd, exist_ok=True)
     binp = vlib.go_build_test(PID, "c20p")
     data = json.load(open(path))
+    if isinstance(data, dict) and data.get("k") == "retry":
+        # one delivery of the retry contract, in real time (a violation shows in the first pass and in both re-runs)
+        inp = os.path.join(wd, "retry_replay_in.jsonl")
+        with open(inp, "w") as f:
+            f.write(json.dumps(data) + "\n")
+        r = _retry_replay(binp, inp, os.path.join(wd, "retry_replay_out.json"), vlib.seed())
+        _judge_retry(v, wd, r, 1, tag="retry_single", single=True)
+        return
     if isinstance(data, dict):
         data = [data]
     inp = os.path.join(wd, "payload_replay_in.jsonl")
